@@ -55,6 +55,14 @@ CHECKS = {
         note="trusted: the probe's expected result; allocation failure / timeouts are inconclusive; one open known finding (debug() of a self-containing value overflows the stack) keyed on its exact shape",
         technique="runtime assertion monitors over generated call histories (panic/abort capture, error well-formedness, reusability probe) + ASan",
         ref="DESIGN.md section 3 C07"),
+    "C08": dict(
+        engine="svh",
+        text="All 579 legal signatures with up to 5 parameters over positional-only, positional-or-keyword, defaults, *args, bare *, keyword-only and **kwargs (quick: all with <=2 parameters + a seeded sample of 260; thorough: all) x call shapes "
+             "(0-4 positional, 0-3 named incl. unknown names, *seq of length 0-3, **map of size 0-3 with overlapping names) are bound by CPython and by starlark-rust on eight call paths: direct, through a variable, struct field, partial, "
+             "frozen-and-loaded def, host eval_function, native functions and natives through a variable; ok/fail and the tuple of bound values must agree. Held on the calls executed; exhaustive over the stated space in thorough.",
+        note="trusted: CPython's call binding as the statement of the call rules; messages are never compared; native coverage is a fixed family of 10 natives",
+        technique="differential oracle vs reference call semantics over an enumerated signature x call-shape x call-path space",
+        ref="DESIGN.md section 3 C08"),
     "C09": dict(
         engine="svh",
         text="The algebraic laws themselves are the oracle: reflexivity, symmetry, transitivity (through equivalence classes, i.e. all triples), "
@@ -98,6 +106,14 @@ CHECKS = {
         note="trusted: Evaluator::call_stack_count()/get_total_tick_count() as measuring devices; the documented check interval of 1000",
         technique="runtime limit-model monitor over enumerated (shape, limit, depth/budget/position) scenarios",
         ref="DESIGN.md section 3 C15"),
+    "C18": dict(
+        engine="svh",
+        text="Generated programs with marker statements run uninstrumented, under (a sample of, thorough: all) 13 ProfileModes, with a logging statement hook, and under the debug adapter with breakpoints on all / none / a random subset of marker lines "
+             "(unconditional, condition true, condition false, evaluate() at stops), and stepping into / over / out from the first statement. Transcripts must equal the uninstrumented run; the stop log must be exactly the marker executions whose line "
+             "has a breakpoint; the variable a marker emits must be what variables() showed at the stop before it; step-into must visit every marker execution once, in order. Held on the (program, configuration) runs executed.",
+        note="trusted: the marker discipline (markers contain no nested calls); step-over/out only checked for non-interference; one open known finding (module-level statements stop twice) keyed on its signature",
+        technique="runtime trace monitor: transcript equality + stop-log subsequence/exactly-once checker over recorded debugger events",
+        ref="DESIGN.md section 3 C18"),
     "C20": dict(
         engine="svh",
         text="2..16 threads start on a barrier with seeded jitter and run generated client programs that load shared frozen modules (or, in the first-use variant, build globals and modules under contention), "
